@@ -314,10 +314,68 @@ structure CanonStreamWP where
   cid : Cid
 deriving Repr, Inhabited
 
+end Aqua.Exec
+
+namespace Aqua.Exec.Lens
+open Aqua Aqua.Json
+
+/-! ## `stream_map_key.rs` -/
+
+inductive StreamMapKey where
+  | str (s : String)
+  | u64 (n : Nat)
+  | i64 (i : Int)
+deriving Repr, DecidableEq, Inhabited
+
+def i64Min : Int := -9223372036854775808
+def i64Max : Int := 9223372036854775807
+def u64Max : Int := 18446744073709551615
+
+/-- `StreamMapKey::from_value` / `from_value_ref`: strings; numbers that are `i64`; else numbers that are
+`u64`; nothing else (floats, null, booleans, arrays, objects) -/
+def StreamMapKey.fromValue : JVal → Option StreamMapKey
+  | .str s => some (.str s)
+  | .num i =>
+    if i64Min ≤ i ∧ i ≤ i64Max then some (.i64 i)
+    else if 0 ≤ i ∧ i ≤ u64Max then some (.u64 i.toNat)
+    else none
+  | _ => none
+
+/-- `impl From<u32> for StreamMapKey` (numeric lens accessor) -/
+def StreamMapKey.ofU32 (idx : Nat) : StreamMapKey := .i64 idx
+
+/-- `to_key` -/
+def StreamMapKey.toKey : StreamMapKey → String
+  | .str s => s
+  | .u64 n => toString n
+  | .i64 i => toString i
+
+end Aqua.Exec.Lens
+
+namespace Aqua.Exec
+open Aqua Aqua.Json Aqua.Air Aqua.Data Aqua.Trace
+
+/-- `CanonStreamMap` (`value_types/canon_stream_map.rs`): all key-value pair objects, the index key ↦ canon
+stream of the values inserted under that key (the `HashMap` as an association list in order of first insertion,
+used through keyed access; the one place that iterates it is `asJvalue`), and the canon's tetraplet.
+(`Lens.CanonStreamMap` is its value part, on which the lens applier is specified.) -/
+structure CanonStreamMapAgg where
+  values : List ValueAggregate
+  map : List (Lens.StreamMapKey × CanonStream)
+  tetraplet : Tetraplet
+deriving Repr, Inhabited
+
+/-- `CanonStreamMapWithProvenance` -/
+structure CanonStreamMapWP where
+  canonStreamMap : CanonStreamMapAgg
+  cid : Cid
+deriving Repr, Inhabited
+
 structure Scalars where
   nonIterable : SparseMatrix ValueAggregate := {}
   iterable : List (String × FoldState) := []
   canonStreams : SparseMatrix CanonStreamWP := {}
+  canonMaps : SparseMatrix CanonStreamMapWP := {}
 deriving Repr, Inhabited
 
 /-! ## CID state -/
